@@ -306,6 +306,38 @@ func runC02(c *Ctx) {
 							complete = true
 						}
 					}
+					// the same statement on the remaining part: n == / >= len(b[old:]) with progress = old + n
+					if ok && (op == token.EQL || op == token.GEQ || op == token.LEQ) {
+						remLen := func(v ssa.Value) ssa.Value {
+							lc, ok := stripConv(v).(*ssa.Call)
+							if !ok {
+								return nil
+							}
+							b, ok := lc.Call.Value.(*ssa.Builtin)
+							if !ok || b.Name() != "len" {
+								return nil
+							}
+							sl, ok := stripConv(lc.Call.Args[0]).(*ssa.Slice)
+							if !ok || stripConv(sl.X) != ssa.Value(info.bufParam) || sl.High != nil || sl.Low == nil {
+								return nil
+							}
+							return stripConv(sl.Low)
+						}
+						sumsTo := func(old, n ssa.Value) bool {
+							bo, ok := stripConv(info.newProg).(*ssa.BinOp)
+							if !ok || bo.Op != token.ADD {
+								return false
+							}
+							a, b := stripConv(bo.X), stripConv(bo.Y)
+							return (a == old && b == stripConv(n)) || (b == old && a == stripConv(n))
+						}
+						if old := remLen(y); old != nil && sumsTo(old, x) && (op == token.EQL || op == token.GEQ) {
+							complete = true
+						}
+						if old := remLen(x); old != nil && sumsTo(old, y) && (op == token.EQL || op == token.LEQ) {
+							complete = true
+						}
+					}
 				}
 				if !(errNil && (allClear || complete)) {
 					bad = fmt.Sprintf("a nil-error completion is reachable with transfer-ok=%v all-flag-clear=%v complete=%v (%s)", errNil, allClear, complete, path)
